@@ -298,6 +298,26 @@ func inPackage(r *hx.Result, cfg hx.Config, rng *rand.Rand) {
 			}
 		}
 		all := c.Scan(false)
+		// the float32 rectangles stored in the R-tree vs the model's rtree_rect of the same objects
+		{
+			var sp []string
+			for _, e := range c.Spatial() {
+				sp = append(sp, fmt.Sprintf("%s:%s:%s:%s:%s", model.H(e.Obj.ID()), b32(e.Min[0]), b32(e.Min[1]), b32(e.Max[0]), b32(e.Max[1])))
+			}
+			sort.Strings(sp)
+			impl := "sp=-"
+			if len(sp) > 0 {
+				impl = "sp=" + strings.Join(sp, ",")
+			}
+			mod := drv.Ask("summary")
+			if i := strings.Index(mod, "sp="); i >= 0 {
+				mod = mod[i:]
+			}
+			if impl != mod {
+				r.Fail(hx.Failure{Kind: "correspondence", Signature: "rtree-rect-model", What: "float32 rectangles of the spatial index differ from Model.Float32.rtree_rect of the objects' rectangles",
+					Case: map[string]interface{}{"history": hist}, Impl: impl, Model: mod})
+			}
+		}
 		for qi := 0; qi < queries; qi++ {
 			var qjs string
 			switch rng.Intn(4) {
